@@ -19,6 +19,7 @@ import (
 	"github.com/bytedance/sonic"
 	"github.com/couchbase/gocbcore/v10"
 	"github.com/google/uuid"
+	"github.com/prometheus/client_golang/prometheus"
 
 	"verif/vrt"
 )
@@ -54,6 +55,7 @@ func (d *detRand) Read(p []byte) (int, error) {
 func resetGlobals() {
 	logger.Log = nopLogger{}
 	uuid.SetRand(&detRand{})
+	prometheus.DefaultRegisterer = prometheus.NewRegistry()
 }
 
 // ---- recording consumer -----------------------------------------------------------------------------
